@@ -133,11 +133,8 @@ def doRun (args : List String) : Option String := do
   if !restToks.isEmpty then none else
   -- C03 (status): a failure must reach `main` as a task-run error wrapping the command's status
   -- (201 / the status with --exit-code) or as a typed error — never as a bare exit status (exit 1)
-  -- and never doubly wrapped (201 even with --exit-code)
-  let c03s := match cs.result with
-    | .exit _ => false
-    | .run (.run _) => false
-    | _ => true
+  -- and never doubly wrapped (201 even with --exit-code); no dependency reports a task-run error
+  let c03s := statusMon cs.trace cs.result
   let verdicts := monitorVerdicts2 cs.prog cs.F cs.calls cs.trace ++ (if c03s then " C03s=1" else " C03s=0")
   match replayIdx cs.prog cs.F (init cs.calls.length) cs.trace 0 with
   | .error i => some s!"reject step={i} {verdicts}"
